@@ -3,6 +3,7 @@ CONSTANTS
   Kinds = {"A", "B"}
   MaxNest = 3
   MaxSteps = 9
+  ObjAfterMsg = TRUE
   ClearActive = TRUE
   Emit = FALSE
 VIEW view
